@@ -1293,6 +1293,7 @@ fn check_number_text(rep: &mut Report, lc: &mut LogChecker, cx: &mut Ctx, text: 
             rep.fail("nonfinite_from_text", format!("the lexer made a Number whose value is {x} from this text: JSON (the statistics log, the code action of harper-ls) cannot carry it"), inp.clone());
         }
     }
+    check_doc_numbers(rep, cx, text, origin);
     rep.count(if nums.is_empty() { "numtext:no_number" } else if nums.iter().any(|x| *x > 1e300) { "numtext:number_above_1e300" } else { "numtext:number" });
     let d = json!({"t": "doc", "text": text, "when": 1_700_000_000, "uuid": uuid_string(0x1900), "take": 12});
     let recs = cx.records_from_json(&d);
@@ -1358,6 +1359,258 @@ fn gen_line_text(r: &mut Rng) -> String {
     t.replace(['\n', '\r'], " ")
 }
 
+
+// ------------------------------------------------------------------------------------------------
+// phase 4 (a): the Numbers of the document are the lexer's (C19_document_number_values, on the implementation)
+// ------------------------------------------------------------------------------------------------
+fn check_doc_numbers(rep: &mut Report, cx: &Ctx, text: &str, origin: &str) {
+    use harper_core::parsers::{Parser, PlainEnglish};
+    let inp = json!({"kind": "docnum", "text": text, "origin": origin});
+    let dict = cx.dict.clone();
+    let res = guarded(|| {
+        let cs: Vec<char> = text.chars().collect();
+        let lexed: Vec<(u64, u32, usize)> = PlainEnglish.parse(&cs).iter().filter_map(|t| if let TokenKind::Number(n) = &t.kind { Some((n.value.0.to_bits(), n.radix, n.precision)) } else { None }).collect();
+        let doc = Document::new_plain_english(text, &dict);
+        let docn: Vec<(u64, u32, usize, bool)> = doc.get_tokens().iter().filter_map(|t| if let TokenKind::Number(n) = &t.kind { Some((n.value.0.to_bits(), n.radix, n.precision, n.suffix.is_some())) } else { None }).collect();
+        (lexed, docn)
+    });
+    let Ok((lexed, docn)) = res else { return };
+    for d in &docn {
+        if lexed.contains(&(d.0, d.1, d.2)) {
+            rep.monitor("doc_numbers: a Number token of the document has the value, radix and precision of a Number token of the lexer", 1);
+            if d.3 {
+                rep.count("docnum:number_with_suffix");
+            }
+        } else {
+            rep.monitor("doc_numbers_violated: a pass of Document::parse built or changed a Number", 1);
+            rep.fail("doc_number_not_lexed", format!("the document holds a Number (value {:?}, radix {}, precision {}) that PlainEnglish::parse did not make from this text (lexer Numbers: {:?}): a pass of Document::parse built or changed a Number value", f64::from_bits(d.0), d.1, d.2, lexed.iter().map(|l| f64::from_bits(l.0)).collect::<Vec<_>>()), inp.clone());
+        }
+    }
+    rep.count(if docn.is_empty() { "docnum:no_number" } else if docn.len() == lexed.len() { "docnum:numbers" } else { "docnum:numbers_fewer_than_lexed" });
+}
+
+// ------------------------------------------------------------------------------------------------
+// phase 4 (b): two save_stats sessions at the same time (BufWriter chunks, O_APPEND)
+// ------------------------------------------------------------------------------------------------
+/// sits between Stats::write and the BufWriter: the fragments the serializer hands over
+struct FragLog<W: Write> {
+    inner: W,
+    lens: Vec<usize>,
+}
+impl<W: Write> Write for FragLog<W> {
+    fn write(&mut self, b: &[u8]) -> std::io::Result<usize> {
+        let n = self.inner.write(b)?;
+        self.lens.push(n);
+        Ok(n)
+    }
+    fn write_all(&mut self, b: &[u8]) -> std::io::Result<()> {
+        self.lens.push(b.len());
+        self.inner.write_all(b)
+    }
+    fn flush(&mut self) -> std::io::Result<()> {
+        self.inner.flush()
+    }
+}
+/// sits below the BufWriter: one entry per write call = one write(2) on the descriptor
+struct ChunkSink {
+    chunks: Vec<Vec<u8>>,
+}
+impl Write for ChunkSink {
+    fn write(&mut self, b: &[u8]) -> std::io::Result<usize> {
+        self.chunks.push(b.to_vec());
+        Ok(b.len())
+    }
+    fn flush(&mut self) -> std::io::Result<()> {
+        Ok(())
+    }
+}
+/// Stats::write through the real std BufWriter (cap = None: BufWriter::new as in save_stats): fragment lengths, chunks
+fn session_chunks(records: &[Record], cap: Option<usize>) -> Option<(Vec<usize>, Vec<Vec<u8>>)> {
+    let st = Stats { records: records.to_vec() };
+    guarded(|| {
+        let sink = ChunkSink { chunks: vec![] };
+        let bw = match cap {
+            None => BufWriter::new(sink),
+            Some(c) => BufWriter::with_capacity(c, sink),
+        };
+        let mut fl = FragLog { inner: bw, lens: vec![] };
+        st.write(&mut fl).ok()?;
+        fl.flush().ok()?;
+        let lens = fl.lens;
+        let sink = fl.inner.into_inner().ok()?;
+        Some((lens, sink.chunks))
+    })
+    .ok()
+    .flatten()
+}
+fn open_like_save_stats(path: &str) -> std::io::Result<std::fs::File> {
+    std::fs::OpenOptions::new().read(true).append(true).create(true).open(path)
+}
+/// the order of the write(2) calls: the same rule as C19Concurrent.interleave_by
+fn interleave_by<T: Clone>(sched: &[bool], a: &[T], b: &[T]) -> Vec<(bool, T)> {
+    let (mut i, mut j, mut k) = (0, 0, 0);
+    let mut out = vec![];
+    loop {
+        if i == a.len() {
+            out.extend(b[j..].iter().cloned().map(|x| (false, x)));
+            return out;
+        }
+        if j == b.len() {
+            out.extend(a[i..].iter().cloned().map(|x| (true, x)));
+            return out;
+        }
+        if k == sched.len() {
+            out.extend(a[i..].iter().cloned().map(|x| (true, x)));
+            out.extend(b[j..].iter().cloned().map(|x| (false, x)));
+            return out;
+        }
+        if sched[k] {
+            out.push((true, a[i].clone()));
+            i += 1;
+        } else {
+            out.push((false, b[j].clone()));
+            j += 1;
+        }
+        k += 1;
+    }
+}
+const BUFWRITER_CAP: usize = 8192;
+/// Two processes run save_stats on the same statsPath at the same time.  Each session goes through the real Stats::write
+/// and the real std BufWriter (which decide the write(2) calls); the calls are then issued on two real descriptors opened
+/// exactly as save_stats opens them, in the order the schedule says.  cap == 8192 is save_stats itself (judged by the
+/// oracle); other capacities exercise the BufWriter model only (correspondence B / C).
+fn check_concurrent(rep: &mut Report, old: &[Record], a: &[Record], b: &[Record], sched: &[bool], cap: usize, origin: &str, dir: &str) {
+    rep.eval();
+    let inp = json!({"kind": "concurrent", "origin": origin, "cap": cap,
+        "old": old.iter().map(record_to_json).collect::<Vec<_>>(), "a": a.iter().map(record_to_json).collect::<Vec<_>>(),
+        "b": b.iter().map(record_to_json).collect::<Vec<_>>(), "sched": sched.iter().map(|x| *x as u8).collect::<Vec<_>>()});
+    let bw_cap = if cap == BUFWRITER_CAP { None } else { Some(cap) };
+    let (Some((fa, ca)), Some((fb, cb))) = (session_chunks(a, bw_cap), session_chunks(b, bw_cap)) else {
+        rep.fail("write_error", "Stats::write through a BufWriter failed".into(), inp);
+        return;
+    };
+    // B: the model's BufWriter makes the same write(2) calls out of the same fragments
+    for (f, c) in [(&fa, &ca), (&fb, &cb)] {
+        if !f.is_empty() {
+            rep.case(&format!("B {}|{}", cap, ints(&f.iter().map(|x| *x as u64).collect::<Vec<_>>())), &ints(&c.iter().map(|x| x.len() as u64).collect::<Vec<_>>()));
+        }
+    }
+    rep.count(&format!("concurrent:cap={}:write_calls A {} B {}", if cap == BUFWRITER_CAP { "8192" } else { "small" }, bucket(ca.len()), bucket(cb.len())));
+    let path = format!("{dir}/conc.jsonl");
+    let _ = std::fs::remove_file(&path);
+    let res: Result<(), String> = (|| {
+        if !old.is_empty() {
+            let mut w = BufWriter::new(open_like_save_stats(&path).map_err(|e| e.to_string())?);
+            Stats { records: old.to_vec() }.write(&mut w).map_err(|e| e.to_string())?;
+            w.flush().map_err(|e| e.to_string())?;
+        }
+        let mut ha = open_like_save_stats(&path).map_err(|e| e.to_string())?;
+        let mut hb = open_like_save_stats(&path).map_err(|e| e.to_string())?;
+        for (is_a, chunk) in interleave_by(sched, &ca, &cb) {
+            (if is_a { &mut ha } else { &mut hb }).write_all(&chunk).map_err(|e| e.to_string())?;
+        }
+        Ok(())
+    })();
+    if let Err(e) = res {
+        rep.fail("write_error", format!("concurrent sessions: {e}"), inp);
+        return;
+    }
+    let file = std::fs::read(&path).unwrap_or_default();
+    let _ = std::fs::remove_file(&path);
+    let got = guarded(|| Stats::read(&mut &file[..]).ok().map(|s| s.records)).ok().flatten();
+    let ab: Vec<Record> = old.iter().chain(a).chain(b).cloned().collect();
+    let ba: Vec<Record> = old.iter().chain(b).chain(a).cloned().collect();
+    let which = got.as_ref().map(|g| if *g == ab { 1 } else if *g == ba { 2 } else { 0 });
+    // C: the model (BufWriter, interleaving, O_APPEND, read over the modelled Record) predicts the file and the verdict
+    let line = |r: &Record| ints(&serde_json::to_vec(r).unwrap_or_default());
+    let mut case = format!("C {}|o {}", cap, ints(&old.iter().flat_map(|r| { let mut l = serde_json::to_vec(r).unwrap_or_default(); l.push(b'\n'); l }).collect::<Vec<u8>>()));
+    for r in a {
+        case.push_str(&format!("|a {}", line(r)));
+    }
+    for r in b {
+        case.push_str(&format!("|b {}", line(r)));
+    }
+    case.push_str(&format!("|f {}|g {}|s {}", ints(&fa.iter().map(|x| *x as u64).collect::<Vec<_>>()), ints(&fb.iter().map(|x| *x as u64).collect::<Vec<_>>()), ints(&sched.iter().map(|x| *x as u64).collect::<Vec<_>>())));
+    let verdict = match (&got, which) {
+        (Some(g), Some(w)) => format!("{} {}", g.len(), w),
+        _ => "N".to_string(),
+    };
+    rep.case(&case, &format!("{}|{}", digest(&file), verdict));
+    let sa: usize = ca.iter().map(|c| c.len()).sum();
+    let sb: usize = cb.iter().map(|c| c.len()).sum();
+    if cap != BUFWRITER_CAP {
+        rep.count(match which { Some(1) | Some(2) => "concurrent:small_cap:intact", Some(_) => "concurrent:small_cap:reordered", None => "concurrent:small_cap:torn" });
+        return;
+    }
+    rep.nontrivial(&(digest(&file), sched.to_vec()));
+    let fits = sa <= BUFWRITER_CAP && sb <= BUFWRITER_CAP;
+    match which {
+        Some(1) | Some(2) => {
+            rep.monitor("concurrent: two overlapping save_stats sessions read back as one batch after the other", 1);
+            rep.count(if fits { "concurrent:both_fit_the_buffer:intact" } else { "concurrent:above_8192:intact (write calls did not interleave inside a line)" });
+        }
+        _ => {
+            rep.count(if fits { "concurrent:both_fit_the_buffer:TORN" } else { "concurrent:above_8192:torn" });
+            let what = if got.is_none() {
+                format!("two save_stats sessions at the same time ({sa} and {sb} bytes, {} and {} write(2) calls): the write(2) calls interleave inside a line and Stats::read rejects the whole log ({} older records lost too)", ca.len(), cb.len(), old.len())
+            } else {
+                format!("two save_stats sessions at the same time ({sa} and {sb} bytes, {} and {} write(2) calls): the write(2) calls interleave and the log reads back as neither old+A+B nor old+B+A", ca.len(), cb.len())
+            };
+            rep.fail(if fits { "concurrent_small_torn" } else { "concurrent_torn_line" }, what, inp);
+        }
+    }
+}
+/// records for one process: grown until the serialised batch has at least `min_bytes`
+fn gen_batch(r: &mut Rng, dict: &FstDictionary, min_bytes: (usize, usize), max_records: (usize, usize)) -> Vec<Record> {
+    let min_bytes = r.range(min_bytes.0, min_bytes.1);
+    let max_records = r.range(max_records.0, max_records.1);
+    let mut out = vec![];
+    let mut n = 0usize;
+    while out.len() < max_records && (n < min_bytes || out.is_empty()) {
+        let rec = gen_record(r, dict, false);
+        n += serde_json::to_vec(&rec).map(|v| v.len() + 1).unwrap_or(0);
+        out.push(rec);
+    }
+    out
+}
+/// two REAL threads, each with its own BufWriter<File> exactly as save_stats: not deterministic, reported as a number only
+fn real_thread_overlap(dir: &str, a: &[Record], b: &[Record], rounds: usize, single_write: bool) -> (usize, usize) {
+    let path = format!("{dir}/conc-threads.jsonl");
+    let mut torn = 0;
+    for _ in 0..rounds {
+        let _ = std::fs::remove_file(&path);
+        let barrier = Arc::new(std::sync::Barrier::new(2));
+        let hs: Vec<_> = [a.to_vec(), b.to_vec()].into_iter().map(|recs| {
+            let (p, bar) = (path.clone(), barrier.clone());
+            std::thread::spawn(move || {
+                let Ok(mut f) = open_like_save_stats(&p) else { return };
+                if single_write {
+                    // fixes/FC19a: the whole batch in one write(2)
+                    let mut batch = vec![];
+                    let _ = Stats { records: recs }.write(&mut batch);
+                    bar.wait();
+                    let _ = f.write_all(&batch);
+                    return;
+                }
+                let mut w = BufWriter::new(f);
+                bar.wait();
+                let _ = Stats { records: recs }.write(&mut w);
+                let _ = w.flush();
+            })
+        }).collect();
+        for h in hs {
+            let _ = h.join();
+        }
+        let file = std::fs::read(&path).unwrap_or_default();
+        let ok = Stats::read(&mut &file[..]).map(|s| s.records.len() == a.len() + b.len()).unwrap_or(false);
+        if !ok {
+            torn += 1;
+        }
+    }
+    let _ = std::fs::remove_file(&path);
+    (rounds, torn)
+}
+
 fn replay_input(rep: &mut Report, lc: &mut LogChecker, cx: &mut Ctx, v: &Value, dir: &str) {
     match v["kind"].as_str().unwrap_or("") {
         "str" => {
@@ -1391,6 +1644,14 @@ fn replay_input(rep: &mut Report, lc: &mut LogChecker, cx: &mut Ctx, v: &Value, 
             lc.check_log(rep, &sessions, &from_text, Some(v["sessions"].clone()), &how, "replay", dir);
         }
         "numtext" => check_number_text(rep, lc, cx, v["text"].as_str().unwrap_or(""), "replay", dir),
+        "docnum" => check_doc_numbers(rep, cx, v["text"].as_str().unwrap_or(""), "replay"),
+        "concurrent" => {
+            let mut recs = |key: &str| -> Vec<Record> { v[key].as_array().map(|a| a.iter().flat_map(|r| cx.records_from_json(r)).collect()).unwrap_or_default() };
+            let (old, a, b) = (recs("old"), recs("a"), recs("b"));
+            let sched: Vec<bool> = v["sched"].as_array().map(|a| a.iter().map(|c| c.as_u64().unwrap_or(0) != 0).collect()).unwrap_or_default();
+            let cap = v["cap"].as_u64().unwrap_or(BUFWRITER_CAP as u64) as usize;
+            check_concurrent(rep, &old, &a, &b, &sched, cap.max(1), "replay", dir);
+        }
         "ls" => {
             let texts: Vec<Vec<String>> = serde_json::from_value(v["texts"].clone()).unwrap_or_default();
             let picks: Vec<usize> = serde_json::from_value(v["picks"].clone()).unwrap_or_default();
@@ -1534,6 +1795,43 @@ fn run(a: &Args, corpus: &[Value]) {
             }
         };
         check_float(&mut rep, &mut lc, x, &mut shown, &dir);
+    }
+    // ---- phase 4: the Numbers of generated documents are the lexer's
+    for _ in 0..a.scale(300, 4000) {
+        let t = if r.chance(1, 2) { gen::any_text(&mut r) } else { format!("{} {}", gen_number_text(&mut r), gen_line_text(&mut r)) };
+        check_doc_numbers(&mut rep, &cx, &t, "documents");
+    }
+    // ---- phase 4: two save_stats sessions at the same time
+    {
+        // both batches fit the buffer: every order of the write(2) calls must read back (C19_concurrent_small_batches)
+        for _ in 0..a.scale(40, 500) {
+            let old = if r.chance(1, 2) { gen_batch(&mut r, &dict, (0, 0), (1, 3)) } else { vec![] };
+            let (x, y) = (gen_batch(&mut r, &dict, (0, 0), (1, 4)), gen_batch(&mut r, &dict, (0, 0), (1, 4)));
+            let sched: Vec<bool> = (0..r.range(0, 3)).map(|_| r.chance(1, 2)).collect();
+            check_concurrent(&mut rep, &old, &x, &y, &sched, BUFWRITER_CAP, "small_batches", &dir);
+        }
+        // at least one batch above 8192 bytes: several write(2) calls per session
+        // (the extracted model counts in unary: a session of n fragments costs n * 8192 steps — volume is in the thorough tier)
+        for i in 0..a.scale(10, 90) {
+            let old = if r.chance(1, 2) { gen_batch(&mut r, &dict, (0, 0), (2, 2)) } else { vec![] };
+            let hi = if a.thorough() && i % 3 == 0 { 30000 } else { 10500 };
+            let x = gen_batch(&mut r, &dict, (8200, hi), (400, 400));
+            let y = if r.chance(1, 3) { gen_batch(&mut r, &dict, (8200, hi), (400, 400)) } else { gen_batch(&mut r, &dict, (0, 0), (1, 3)) };
+            let sched: Vec<bool> = (0..r.range(0, 8)).map(|_| r.chance(1, 2)).collect();
+            check_concurrent(&mut rep, &old, &x, &y, &sched, BUFWRITER_CAP, "large_batches", &dir);
+        }
+        // the BufWriter model at other capacities (correspondence only): many chunk boundaries with few records
+        for _ in 0..a.scale(150, 2500) {
+            let cap = *r.pick(&[1usize, 2, 7, 16, 33, 64, 100, 256, 1000, 4096]);
+            let (x, y) = (gen_batch(&mut r, &dict, (0, 0), (1, 4)), gen_batch(&mut r, &dict, (0, 0), (1, 3)));
+            let sched: Vec<bool> = (0..r.range(0, 12)).map(|_| r.chance(1, 2)).collect();
+            check_concurrent(&mut rep, &[], &x, &y, &sched, cap, "small_capacity", &dir);
+        }
+        // two real threads (not deterministic: a number in the evidence, not a verdict)
+        let (x, y) = (gen_batch(&mut r, &dict, (200_000, 200_000), (4000, 4000)), gen_batch(&mut r, &dict, (200_000, 200_000), (4000, 4000)));
+        let (rounds, torn) = real_thread_overlap(&dir, &x, &y, a.scale(10, 40), false);
+        let (_, torn_fixed) = real_thread_overlap(&dir, &x, &y, a.scale(10, 40), true);
+        rep.extra.insert("real_thread_overlap".into(), json!({"rounds": rounds, "logs_unreadable_afterwards": torn, "logs_unreadable_with_one_write_per_session (fixes/FC19a)": torn_fixed, "bytes_per_session": 200_000, "note": "two threads, each BufWriter::new(File opened like save_stats) + Stats::write + flush, started together; scheduling decides, so this is an observation, not a verdict"}));
     }
     // ---- the real front ends
     for _ in 0..a.scale(25, 200) {
